@@ -220,9 +220,13 @@ theorem verify_false_other (cv av : Nat) (payload magic msg sig digest pk : Byte
 --       Secp256k1.recover (beNat msg) (beNat sigR) (beNat sigS) recid =
 --         (Model.Keys.recover sigR sigS msg recid false).2.bind (fun Q => if Q = .inf then none else some Q)
 --
--- Both sides unfold to the same expression over `liftX` and `mulAdd2`; the proof is a case split, but
--- `simp`/`dsimp` on the unfolded terms (which mention the 256-bit constants) did not terminate within
--- minutes in the time available.  The equality is exercised by the correspondence run instead
+-- Both sides unfold to the same expression over `liftX` and `mulAdd2`; the proof is a case split.  Two
+-- attempts failed for a technical reason: every tactic script that unfolds `Secp256k1.recover` /
+-- `Model.Keys.recover` and then transforms the goal (`simp only`, `dsimp only`, `extract_lets`) elaborates
+-- in under a second, but the kernel does not finish checking the resulting term ("(kernel) deep recursion
+-- detected" / "(kernel) deterministic timeout").  This persists after generalising n, p, G, `mulAdd2`,
+-- `liftX`, `invMod` and `mul` to variables, so it is not the 256-bit constants.  `unfold` followed by
+-- `rw [if_neg …]` alone does check.  The equality is exercised by the correspondence run instead
 -- (`c14.msg` recomputes the key with `Secp256k1.recover`, `c14.recoverCompact` with `Model.Keys.recover`,
 -- both compared with the library on the same signatures).  What is proved of `Model.Keys.recover` is its
 -- use inside `signCompact_layout` above and the abstract algebra of the formula (`recover_correct`).
